@@ -208,6 +208,8 @@ def run_property(prop, tier, seed, level, explanation="", trusted_base=(), worke
         if not any(v[0] == path for v in violations):
             violations.append((path, text, confirmed))
 
+    refuted_by_key = {}
+    status_hist = {}
     for r in results:
         ob = registry.OBLIGATIONS[r["idx"]]
         declared_functions.update(ob.functions)
@@ -223,6 +225,7 @@ def run_property(prop, tier, seed, level, explanation="", trusted_base=(), worke
             functions_seen[q] = functions_seen.get(q, 0) + c
         for inst in r["instances"]:
             n_ob += 1
+            status_hist[inst["status"]] = status_hist.get(inst["status"], 0) + 1
             key_obj = dict(obligation=ob.name, label=inst["label"], cases=inst["cases"])
             if inst["status"] == "proved":
                 n_dis += 1
@@ -232,16 +235,22 @@ def run_property(prop, tier, seed, level, explanation="", trusted_base=(), worke
                     samples.append(dict(obligation=ob.name, label=inst["label"], cases=inst["cases"], verdict="proved", backend=inst["backend"], ms=round(inst["seconds"] * 1000, 1)))
             elif inst["status"] == "refuted":
                 solver_s += inst["seconds"]
-                rp = inst["replay"] or {}
-                confirmed = bool(rp.get("reproduced"))
-                text = f"obligation {ob.name}/{inst['label']} cases={json.dumps(inst['cases'], sort_keys=True)}"
-                record_violation(key_obj, text, dict(obligation=ob.name, label=inst["label"], cases=inst["cases"], inputs=inst["inputs"],
-                                                     solver=dict(backend=inst["backend"], seconds=inst["seconds"], verdict="sat (negated obligation satisfiable)"),
-                                                     native_replay=rp, how_to_replay=f"./check {prop} --replay <this file>"), confirmed)
+                k = json.dumps(key_obj, sort_keys=True, default=str)
+                prev = refuted_by_key.get(k)
+                # several paths can fail the same (obligation, label, cases): keep the one whose model replays natively
+                if prev is None or (not (prev[1]["replay"] or {}).get("reproduced") and (inst["replay"] or {}).get("reproduced")):
+                    refuted_by_key[k] = (ob, inst, key_obj)
             elif inst["status"] == "unknown":
                 undecided.append(f"{ob.name}/{inst['label']} {inst['cases']}: {inst['detail']} [{inst['backend']}]")
             else:
-                crashes.append(f"{ob.name}/{inst['label']}: status {inst['status']}")
+                crashes.append(f"{ob.name}/{inst['label']}: status {inst['status']} {inst.get('detail', '')}")
+    for ob, inst, key_obj in refuted_by_key.values():
+        rp = inst["replay"] or {}
+        confirmed = bool(rp.get("reproduced"))
+        text = f"obligation {ob.name}/{inst['label']} cases={json.dumps(inst['cases'], sort_keys=True)}"
+        record_violation(key_obj, text, dict(obligation=ob.name, label=inst["label"], cases=inst["cases"], inputs=inst["inputs"],
+                                             solver=dict(backend=inst["backend"], seconds=inst["seconds"], verdict="sat (negated obligation satisfiable)"),
+                                             native_replay=rp, how_to_replay=f"./check {prop} --replay <this file>"), confirmed)
 
     comp_summaries = []
     bounded_eval = bounded_distinct = 0
@@ -301,6 +310,7 @@ def run_property(prop, tier, seed, level, explanation="", trusted_base=(), worke
         explanation=explanation,
         backends=backends,
         solver_seconds=round(solver_s, 3),
+        obligation_instances_by_status=status_hist,
         obligations_failed_known_findings=n_known,
         obligations_failed_new=len(violations),
         obligations_undecided=len(undecided),
